@@ -124,7 +124,7 @@ def model_predict(driver, cases):
     r = subprocess.run([driver], input=("\n".join(lines) + "\n").encode("utf-8", "surrogateescape"),
                        stdout=subprocess.PIPE, stderr=subprocess.PIPE, timeout=600)
     res = {}
-    for l in r.stdout.decode("utf-8", "surrogateescape").splitlines():
+    for l in r.stdout.decode("utf-8", "surrogateescape").split("\n"):
         sx = parse_sx(l)
         if not sx or sx[0] != "res":
             continue
